@@ -1,11 +1,25 @@
 /- Property C16: the property theorems (and nothing else). -/
 import Frugal.Proofs.EncodeRefine
+import Frugal.Proofs.BufferLemmas
 import Frugal.Props.Instances
 namespace Frugal.C16
 open Frugal
-/-- encoding is a function of the value: the model has no other input (map order aside) -/
+/-- encoding is a function of the value: the model has no other input (map order aside), so
+    encoding the same unmodified value again gives the same bytes -/
 theorem encode_deterministic (S : Schema) (hS : S.ok = true) (sid : Nat) (v : Val)
     (ht : hasTy S (.strct sid) v = true) :
     appendM Generated.params S sid v = refEncStruct S sid v :=
   appendAny_eq Instances.params_valid S hS v (.strct sid) rfl ht
+
+/-- EncodeObject writes only buf[:n]: with a sufficient buffer the caller's array afterwards is the
+    encoding followed by its previous contents from n on -/
+theorem writes_only_first_n (back : Bytes) (len : Nat) (chunks : List Bytes) (hfit : chunks.flatten.length ≤ len) :
+    (encodeObjectM back len chunks).2.2 = chunks.flatten ++ back.drop chunks.flatten.length := by
+  rw [encodeObject_fits back len chunks hfit]
+
+theorem never_beyond_len (back : Bytes) (len : Nat) (chunks : List Bytes) :
+    (encodeObjectM back len chunks).2.2.drop len = back.drop len :=
+  encodeObject_tail_untouched back len chunks
+
+theorem code_follows_buffer_model : Generated.facts.bufferContract = true := Instances.facts_bufferContract
 end Frugal.C16
